@@ -8,7 +8,8 @@ Import ListNotations.
 
 (* aggregator behind the command: 0 histogram (MatchCounter), 1 table/heatmap/spark (TableAggregator),
    2 bargraph (SubKeyCounter), 3 analyze (determinism of the snapshot text without its status line, exit status),
-   4 reduce (AccumulatingGroup) *)
+   4 reduce (AccumulatingGroup, sum / count), 5 spark --cols n, 6 reduce with an order-sensitive accumulator
+   (one reader, one worker) *)
 Record c03out := {
   k_kind : N;
   k_n : N;                      (* kind 5: the --cols limit *)
@@ -71,6 +72,22 @@ Definition reduce_rows_ok (keys : list bytes) (rows : list (list bytes)) : bool 
       (List.length body =? List.length (reduce_rows keys))%nat &&
       forallb (fun r => existsb (bl_eq r) body) (reduce_rows keys) &&
       forallb (fun r => existsb (bl_eq r) (reduce_rows keys)) body
+  | [] => false
+  end.
+(* reduce -g {1} -a seq={.}{3}; : an ORDER-SENSITIVE accumulator (the increments of a group in arrival order). With one
+   reader at a time and one worker the arrival order is the input order (C03_any_accumulator_1x1), whatever the
+   batch size, buffer depth, GOMAXPROCS and the number of files *)
+Definition reduce_seq_def : adef expr :=
+  mkAD [EMatch 1] [(of_str "seq", ECat ECur (ECat (EMatch 3) (ELit (of_str ";"))), of_str "0")].
+Definition reduce_seq_rows (keys : list bytes) : list (list bytes) :=
+  map (fun gr : bytes * list bytes => fst gr :: snd gr) (a_run expr (eval_expr bad_type) reduce_seq_def keys).
+Definition reduce_seq_rows_ok (keys : list bytes) (rows : list (list bytes)) : bool :=
+  match rows with
+  | hd :: body =>
+      bl_eq hd [of_str "{1}"; of_str "seq"] &&
+      (List.length body =? List.length (reduce_seq_rows keys))%nat &&
+      forallb (fun r => existsb (bl_eq r) body) (reduce_seq_rows keys) &&
+      forallb (fun r => existsb (bl_eq r) (reduce_seq_rows keys)) body
   | [] => false
   end.
 (* analyze: a key is a parse error iff it is not a number; the generator's increments are signed
@@ -193,6 +210,8 @@ Definition C03_check (i : pin) (o : c03out) : bool :=
       | 5%N => let t := t_run 0%N keys in
                (code =? exit_code nread (N.to_nat (t_errors t)) matched)%Z &&
                match csv_read out with Some rows => spark_trim_ok (N.to_nat (k_n o)) t rows | None => false end
+      | 6%N => (code =? exit_code nread 0 matched)%Z &&
+               match csv_read out with Some rows => reduce_seq_rows_ok keys rows | None => false end
       | 4%N => (code =? exit_code nread 0 matched)%Z &&
                match csv_read out with Some rows => reduce_rows_ok keys rows | None => false end
       | _ => (* analyze: same text under every variant (above), not a usage error, exit status *)
